@@ -1102,6 +1102,22 @@ EXEC_NAV = [('A', 'B', 'R1', None, True), ('B', 'A', 'R1', None, False), ('A', '
             ('C', 'A', 'R2', None, False), ('A', 'A', 'R3', "'next'", False), ('A', 'A', 'R3', "'prev'", False)]
 
 
+def exec_functions(m):
+    """the domain functions of the executable programs, bound to metamodel `m` (name -> callable(**kwargs))"""
+    def spawn():
+        m.new('C', Id=900 + len(m.select_many('C')), W=1)
+        return True
+
+    def mark(v):
+        a = m.select_any('A', lambda sel: sel.Id == 1)
+        a.N = a.N + v
+        return v % 2 == 0
+    return {'spawn': spawn, 'mark': mark}
+
+
+EXEC_FUNCTIONS = ['spawn', 'mark']      # both return a boolean
+
+
 class ExecGen(Gen):
     """programs that run on the EXEC_SCHEMA population under bridgepoint.interpret.run_function and prebuild as
     the body of a function; every variable is defined before it is used, instance handles are tested with
@@ -1522,6 +1538,65 @@ class ExecGen(Gen):
             self.safe.append((v, cls))
             self.insts.append((v, cls))
 
+    def effect_call(self):
+        """`::spawn()` / `::mark(v: n)`: domain functions WITH A SIDE EFFECT (create a C instance / add to A1.N)
+        that return a boolean (EXEC_FUNCTIONS)"""
+        r = self.r
+        self.pn('DOUBLECOLON')
+        if r.random() < 0.5:
+            self.idt('spawn')
+            self.pn('LPAREN')
+            self.pn('RPAREN')
+        else:
+            self.idt('mark')
+            self.pn('LPAREN')
+            self.idt('v')
+            self.pn('COLON')
+            self.num(r.choice([1, 2, 3, 4]))
+            self.pn('RPAREN')
+
+    def x_effect(self):
+        """a side-effecting call as the RIGHT operand of and / or; the left operand decides the result in about
+        half of the cases (OAL evaluates both operands: the effect must happen under every spelling)"""
+        r = self.r
+        op = r.choice(['and', 'or'])
+
+        def operands():
+            k = r.random()
+            if k < 0.3:
+                self.kw('false' if op == 'and' else 'true')       # left operand decides
+            elif k < 0.5:
+                self.kw('true' if op == 'and' else 'false')       # left operand does not decide
+            else:
+                self.bool_expr(1)
+            self.kw(op)
+            self.effect_call()
+        if r.random() < 0.5:
+            v = self.name('f')
+            self.idt(v)
+            self.pn('EQUAL')
+            operands()
+            self.end()
+            self.kw('if')
+            self.pn('LPAREN')
+            self.idt(v)
+            self.pn('RPAREN')
+            self.x_acc()
+            self.end_tok('if')
+            self.end()
+        else:
+            self.kw('if')
+            self.pn('LPAREN')
+            operands()
+            self.pn('RPAREN')
+            self.x_acc()
+            if r.random() < 0.3:
+                self.kw('else')
+                self.x_acc()
+            self.end_tok('if')
+            self.end()
+        self.p.count('x-effect-' + op)
+
     def x_block(self, depth):
         r = self.r
         for _ in range(r.choice([1, 1, 2, 3]) if depth else r.randint(3, self.max_stmts)):
@@ -1530,6 +1605,8 @@ class ExecGen(Gen):
                 self.x_select_from()
             elif k < 0.28:
                 self.x_select_related()
+            elif k < 0.35:
+                self.x_effect()
             elif k < 0.40:
                 self.x_assign_int()
             elif k < 0.52:
@@ -1556,6 +1633,8 @@ class ExecGen(Gen):
         self.end()
         self.ints.append('acc')
         self.x_block(0)
+        if self.r.random() < 0.6:
+            self.x_effect()
         self.kw('return')
         self.idt('acc')
         self.end()
